@@ -1,7 +1,7 @@
 (* C05 — non-vacuity: the hypotheses of the theorems hold on concrete, non-trivial states. *)
 From Coq Require Import Floats.
 From GL Require Import Common.Bytes Lua.Syntax Lua.Num Lua.Values Lua.Names Lua.Eval Lua.Run
-  Lua.MonadFacts Lua.EvalStepFacts Lua.CatchFacts.
+  Lua.MonadFacts Lua.EvalStepFacts Lua.CatchFacts Lua.DriveFacts Lua.EvalInvFacts Lua.DriveRunFacts.
 
 (* closures: 1 = function() emit(1); error({}) end        (raises a table)
              2 = function(e) emit(e); return 7, 8 end      (xpcall handler with two results)
@@ -94,3 +94,14 @@ Proof. eapply error_level0_lemma; [vm_compute; reflexivity| |exact I]. vm_comput
 
 Example ex_error_level1 : builtin_call 5 fr0 BError [VStr boom] st0 = Err (VStr (pos_prefix 9 ++ boom)) st0.
 Proof. apply error_string_level1_lemma. Qed.
+
+(* the failed call's emission extends the trace that existed before it *)
+Definition st1 : state := with_trace st0 [[VBool true]].
+Example ex_trace_extends : exists s1 ext,
+  call 40 (pframes fr0) (VFun 1) [] st1 = Err (VTab 6) s1 /\ trace s1 = trace st1 ++ ext /\ ext = [[VNum 1%float]].
+Proof.
+  assert (H : exists s1, call 40 (pframes fr0) (VFun 1) [] st1 = Err (VTab 6) s1 /\ trace s1 = [[VBool true]; [VNum 1%float]]).
+  { eexists. split; vm_compute; reflexivity. }
+  destruct H as [s1 [H T]]. destruct (call_trace_extends_lemma 40 (pframes fr0) (VFun 1) [] st1 (VTab 6) s1 (or_introl H)) as [ext He].
+  exists s1, ext. split; auto. split; auto. rewrite T in He. simpl in He. inversion He. reflexivity.
+Qed.
